@@ -884,6 +884,44 @@ func (e *Exec) frameObligations(ret, entry *State, fc *FuncContract) {
 			continue
 		}
 		ks := arrayKeySort(h1.Sort)
+		if strings.HasPrefix(k, "G:") {
+			// ghost state: only the byte logs reachable through parameters matter to callers;
+			// logs of objects created inside (readers, buffers) are free to change
+			var cs []*Node
+			for _, p := range e.fn.Params {
+				pv, ok := e.regs[p].(*Node)
+				if !ok {
+					continue
+				}
+				var key *Node
+				if pv.Sort == "Iface" {
+					key = pv
+				} else if pt, isPtr := p.Type().Underlying().(*types.Pointer); isPtr && pv.Sort == RefSort {
+					if n, ok := pt.Elem().(*types.Named); ok {
+						if _, like := e.v.db.GhostAlias[n.Obj().Name()]; like {
+							key = e.box(entry.clone(), pv, p.Type())
+						}
+					}
+				}
+				if key == nil {
+					continue
+				}
+				skip := false
+				for _, a := range allowedAt[k] {
+					if a == key {
+						skip = true
+					}
+				}
+				if !skip {
+					cs = append(cs, Eq(Select(h1, key), Select(h0, key)))
+				}
+			}
+			if len(cs) > 0 {
+				e.obls = append(e.obls, &Obligation{Name: fmt.Sprintf("%s/frame/%s", e.funcKey, k), Kind: "frame", Goal: And(cs...), Hyp: ret.pc,
+					Func: e.funcKey, Text: "ghost byte logs of the parameters are modified only as declared: " + k, Props: fc.Props, Mode: fc.Mode, exec: e, Pos: e.fn.Pos()})
+			}
+			continue
+		}
 		r := BoundVar("r!f", ks)
 		var except []*Node
 		for _, a := range allowedAt[k] {
